@@ -137,11 +137,11 @@ Theorem mm_step_abstraction s o :
   | MIns k v => Permutation (mm_pairs (mm_step s o)) (snd (u_insert true (k, v) (mm_pairs s)))
   | MEraseKey k => mm_pairs (mm_step s o) = snd (u_erase_key k (mm_pairs s))
   | MEraseIf m r => mm_pairs (mm_step s o) = filter (fun e => negb (fst e mod m =? r)%Z) (mm_pairs s)
-  | MErasePair _ _ => True
+  | MErasePair k v => NoDup (map fst s) -> In (k, v) (mm_pairs s) -> Permutation (mm_pairs s) ((k, v) :: mm_pairs (mm_step s o))
   | MClear => mm_pairs (mm_step s o) = []
   end.
 Proof.
-  destruct o; simpl; auto.
+  destruct o; simpl; auto; try (apply mm_erase_pair_pairs).
   - eapply perm_trans; [apply mm_insert_pairs|]. apply Permutation_cons_append.
   - apply mm_erase_key_pairs.
   - apply mm_erase_if_pairs.
